@@ -24,9 +24,9 @@ type Author struct {
 	Name      string
 	Age       int
 	CompanyID *uint
-	Company   *Company `gorm:"foreignKey:CompanyID"`                                           // belongs to
-	Profile   *Profile `gorm:"foreignKey:AuthorID"`                                            // has one
-	Books     []Book   `gorm:"foreignKey:AuthorID"`                                            // has many
+	Company   *Company `gorm:"foreignKey:CompanyID"`                                               // belongs to
+	Profile   *Profile `gorm:"foreignKey:AuthorID"`                                                // has one
+	Books     []Book   `gorm:"foreignKey:AuthorID"`                                                // has many
 	Tags      []Tag    `gorm:"many2many:author_tags;joinForeignKey:AuthorID;joinReferences:TagID"` // many to many
 }
 
